@@ -574,3 +574,20 @@ def try_int (e):
   b, k = linear(e, None)
   if b is None: return k
   return None
+
+def must_pass_under (repo, module, g, env, targets, cls=None, start=None, stops=None, cp=False):
+  """Within the part of the CFG that is reachable under env: does every path
+  from start to a stop (default: normal exit) pass through one of `targets`?
+  Returns (holds, reachable_set)."""
+  start = start or g.entry
+  stops = stops or [g.exit]
+  r = reach_under_cp(repo, module, g, env, cls, start=start) if cp else reach_under(repo, module, g, env, cls, start=start)
+  tg = set(targets)
+  seen = set([start]); st = [start]
+  if start in tg: return True, r
+  while st:
+    n = st.pop()
+    for m, l in n.succ:
+      if l == 'exc' or m in seen or m not in r or m in tg: continue
+      seen.add(m); st.append(m)
+  return not any(s in seen for s in stops), r
